@@ -650,7 +650,14 @@ func (x *txSpec) words() string {
 	if x.rcpt >= 0 {
 		r = strconv.Itoa(x.rcpt)
 	}
-	head := fmt.Sprintf("%s %d %s %s %d %d %d %d", typeName[x.typ], x.sender, r, x.amount, x.nonce, x.gasLimit, len(x.payload), x.newAddr)
+	// "<resolved sender>/<n>": the account field of the tx body is name n (0 = "aergo.name")
+	snd := strconv.Itoa(x.sender)
+	if x.asName > 0 {
+		snd += "/" + strconv.Itoa(x.asName)
+	} else if x.asName < 0 {
+		snd += "/0"
+	}
+	head := fmt.Sprintf("%s %s %s %s %d %d %d %d", typeName[x.typ], snd, r, x.amount, x.nonce, x.gasLimit, len(x.payload), x.newAddr)
 	if x.typ == types.TxType_GOVERNANCE {
 		return head + " " + strings.Join(x.gov, " ")
 	}
